@@ -143,12 +143,12 @@ the SRT, WebVTT, SSA and STL reader loops). With the tag off `verifEmit` is an e
 
 %s
 
-135 changes were written by sub-agents that saw only property texts and a scratch worktree: 39 "plausible refactoring"
-seeds in four batches and 96 mutation-testing style changes in three batches (four per source file or area, including
-the command-line tool). 133 of them break a property as stated and all 133 are caught by the quick tier (the CLI
-mutants by C07, which drives the tool). Two are not flagged, and should not be: C06-c is an equivalent change (it
+171 changes were written by sub-agents that saw only property texts and a scratch worktree: 39 "plausible refactoring"
+seeds in four batches, 96 mutation-testing style changes in three batches (four per source file or area, including
+the command-line tool) and 36 mutants aimed at one property each. 169 of them break a property as stated and all 169
+are caught by the quick tier (the CLI mutants by C07, which drives the tool). Two are not flagged, and should not be: C06-c is an equivalent change (it
 only merges two runs with identical attributes) and P6-2 changes the character-set designation through X/28
-packets, which the statement of C06 does not cover and the specification does not model. 39 of the 133 were missed or
+packets, which the statement of C06 does not cover and the specification does not model. 42 of the 169 were missed or
 barely caught when first run; every miss was answered by widening a *generator* or the *model* (never by loosening an
 oracle): new families (WebVTT N and K, TTML L and A, SSA I, teletext I and M), new rendering choices (per-row box
 patterns, comment-like and non-dialogue lines in SubStation files, inline timestamps without hours, text-like bytes in
